@@ -273,7 +273,8 @@ def run_case(case, ctx):
     res = {}
     mode = case['mode']
     cause = case['cause']
-    t_cause = INSTANTS[case.get('instant', 'running')]
+    inst = case.get('instant', 'running')
+    t_cause = INSTANTS[inst] if isinstance(inst, str) else float(inst)
     second = case.get('second')
 
     def fire(kind, objs, circuit, loop, runtask_getter):
@@ -378,7 +379,8 @@ def run_case(case, ctx):
             if fault == ('s0', 'handler') and cause != 'handler':
                 loop.call_at(t0 + 5.5, fire, 'handler', objs, circuit, loop, lambda: runtask)
             if second:
-                loop.call_at(t0 + t_cause + 1.0, fire, second, objs, circuit, loop, lambda: runtask)
+                loop.call_at(t0 + t_cause + case.get('second_delay', 1.0), fire, second, objs, circuit,
+                             loop, lambda: runtask)
             # some ordinary traffic while running
             def traffic():
                 try:
@@ -710,6 +712,23 @@ def gen(ctx):
             for second in ('sigterm', 'cancel_run', 'shutdown', 'abort'):
                 cases.append({'mode': 'N', 'fault': fault, 'cause': first, 'instant': 'running',
                               'second': second})
+    if not quick:
+        # finer grid of termination instants (ties with the ends of the asynchronous
+        # initialisations at 2, 3 and 4 s and with the traffic at 5 s) and of the delay of a
+        # second cause (ties with the end of the 2 s stop_async)
+        for mode, causes in (('R', ('shutdown', 'abort', 'ev_abort')),
+                             ('U', ('sup_return', 'sup_raise', 'sigterm', 'cancel_run')),
+                             ('N', ('sigterm', 'cancel_run', 'abort'))):
+            for cause in causes:
+                for inst in (0.25, 2.0, 2.5, 3.0, 3.25, 4.0, 4.25, 5.0, 5.25):
+                    cases.append({'mode': mode, 'fault': None, 'cause': cause, 'instant': inst})
+                for second in ('sigterm', 'cancel_run', 'abort', 'shutdown'):
+                    if mode == 'R' and second in ('sigterm', 'cancel_run'):
+                        continue
+                    for delay in (0.0, 0.25, 2.0, 2.25):
+                        cases.append({'mode': mode, 'fault': None, 'cause': cause,
+                                      'instant': 'running', 'second': second,
+                                      'second_delay': delay})
     nperturb = 1 if quick else 12
     out = []
     for p in range(nperturb):
